@@ -11,12 +11,15 @@
   Modelled, not verified: `astropy.io.fits`, `astropy.io.ascii`, `QTable.read`, astropy's unit
   parser (a parameter), float32 rounding of the stored numbers.
 
-  Two claims of the property are false of the current code (DESIGN §7 F4); they are kept as
-  comments marked NOT PROVABLE ON CURRENT CODE, with the proved boundary next to them.
+  The two defects of DESIGN §7 F4 (UnboundLocalError for an unopenable file name; units whose
+  upper-cased string astropy cannot parse back) were repaired in /repo (b0df8c3, 7cabd95); the model
+  follows the repaired code and the full statements are proved.  The only hypothesis about astropy is
+  that its parser reads back the generic string it prints for a unit (`Supported`, third case).
 -/
 import Mathlib.Algebra.Order.Field.Rat
 import Mathlib.Tactic.NormNum
 import Synphot.Lemmas.Specio
+import Synphot.Props.C03
 
 set_option linter.unusedSectionVars false
 set_option linter.unusedVariables false
@@ -64,41 +67,55 @@ example : lookupUnitName "Hz" = none := by decide +kernel
 /-- the fallback for names outside the table is astropy on the string as given, then lower-cased -/
 theorem fallback_is_exact_then_lower : Generated.unitNameFallback = "exact_then_lower" := by decide
 
-/-- the units whose emitted string is again a name of the table for the same unit -/
+/-- the units that are themselves names of the table (in some letter case) -/
 def namedUnits : List String :=
   ["PHOTLAM", "PHOTNU", "FLAM", "FNU", "Jy", "mag(ST)", "mag(AB)", "mag(OB)", "mag(VEGA)"]
 
-theorem namedUnits_facts : ∀ u ∈ namedUnits,
-    emitUnit u ≠ "" ∧ u ≠ "" ∧ lookupUnitName (emitUnit u) = some u ∧ lookupUnitName u = some u := by
+theorem namedUnits_facts : ∀ u ∈ namedUnits, u ≠ "" ∧ lookupUnitName u = some u := by
   decide +kernel
 
-/-- the synphot flux units, Jy and the four magnitude systems are written as strings the reader
-maps back to the same unit, whatever astropy's parser does -/
-theorem named_units_readable (astro : Astro) :
-    ∀ u ∈ namedUnits, readUnit astro (tunitCard (emitUnit u)) = .ok u := by
-  intro u hu
-  obtain ⟨h1, h2, h3, h4⟩ := namedUnits_facts u hu
-  exact readUnit_of_named astro u h1 h2 h3 h4
+/-- the two code shapes the theorems below are about, as they stand in the source now: the TUNIT
+string is `_unit_to_fits_str(validate_unit(x))`, and `fits.open` is called before the `try` -/
+theorem emission_rule : Generated.unitEmission = "upper_if_same_unit" := by decide
+theorem open_before_try : Generated.fitsOpenPosition = "before_try" := by decide
 
-/-- the dimensionless unit (throughput, extinction, …) is written as "no TUNIT card" and read back
-as dimensionless -/
-theorem dimensionless_readable (astro : Astro) : readUnit astro (tunitCard (emitUnit "")) = .ok "" := by
-  have h : tunitCard (emitUnit "") = none := by decide +kernel
-  rw [h]; exact readUnit_none astro
+/-- A unit the package supports, as the model sees it: the dimensionless unit; one of the units named
+in `validate_unit`'s table; or any other unit, given **the one assumption about astropy**: its parser
+reads the generic string it prints for the unit back as that unit (`astro u = some u`), and that string
+is not by accident a name of the table. -/
+def Supported (astro : Astro) (u : String) : Prop :=
+  u = "" ∨ u ∈ namedUnits ∨ (lookupUnitName u = none ∧ astro u = some u)
 
-/-- any other unit reads back iff astropy can parse its upper-cased (or then lower-cased) string to
-the same unit: the general criterion behind `hrw`/`hrf` of the round-trip theorems -/
-theorem other_unit_readable (astro : Astro) (u : String) (hne : emitUnit u ≠ "") (hu : u ≠ "")
-    (h1 : lookupUnitName (emitUnit u) = none) (h2 : lookupUnitName u = none)
-    (hparse : astro (emitUnit u) = some u ∨ (astro (emitUnit u) = none ∧ astro (emitUnit u).toLower = some u))
-    (hself : astro u = some u) :
-    readUnit astro (tunitCard (emitUnit u)) = .ok u := by
-  have hv : validateUnit astro (.str (emitUnit u)) = .ok u := by
-    rcases hparse with h | ⟨ha, hb⟩
-    · simp [validateUnit, h1, h]
-    · simp [validateUnit, h1, ha, hb]
-  have hv2 : validateUnit astro (.str u) = .ok u := by simp [validateUnit, h2, hself]
-  simp [readUnit, tunitCard, fixTunit, colUnit, hne, hu, hv, hv2, bind, Except.bind]
+/-- `validate_unit` maps the generic string of every supported unit to the unit -/
+theorem supported_selfValid (astro : Astro) (u : String) (h : Supported astro u) :
+    u = "" ∨ SelfValid astro u := by
+  rcases h with h | h | ⟨h1, h2⟩
+  · exact Or.inl h
+  · exact Or.inr (validateUnit_of_lookup astro u u (namedUnits_facts u h).2)
+  · right
+    simp [SelfValid, validateUnit, h1, h2]
+
+/-- **every supported unit is written as a string that reads back as the same unit** — the emitted
+string is upper-cased only after `validate_unit` was seen to map it back to the unit -/
+theorem emitted_unit_reads_back (astro : Astro) (u : String) (h : Supported astro u) :
+    readUnit astro (tunitCard (emitUnit astro u)) = .ok u :=
+  readUnit_emit astro u (supported_selfValid astro u h)
+
+/-- the legacy upper-case convention is kept wherever it is harmless: if `validate_unit` maps the
+upper-cased string to the unit, that string is what is written -/
+theorem emitted_upper_when_harmless (astro : Astro) (u : String)
+    (h : validateUnit astro (.str u.toUpper) = .ok u) : emitUnit astro u = u.toUpper := by
+  simp [emitUnit, h]
+
+/-- … and otherwise the unit's own string is written -/
+theorem emitted_keeps_case_otherwise (astro : Astro) (u : String)
+    (h : validateUnit astro (.str u.toUpper) ≠ .ok u) : emitUnit astro u = u := by
+  unfold emitUnit
+  cases hv : validateUnit astro (.str u.toUpper) with
+  | error e => rfl
+  | ok v =>
+    have : v ≠ u := fun e => h (by rw [hv, e])
+    simp [this]
 
 /-- the keyword defaults the property speaks of, as they stand in the source: trimming and padding
 on, native precision, epsilon 0.00032; first extension, WAVELENGTH/FLUX columns; Angstrom/FLAM for
@@ -117,24 +134,11 @@ theorem io_defaults :
 
 /-! ## round trip with trimming and padding disabled -/
 
-/-
-  -- NOT PROVABLE ON CURRENT CODE (F4, second half): the property claims the round trip "for every
-  -- wavelength unit and every flux or throughput unit the package supports", i.e.
-
-  theorem roundtrip_raw_every_unit … (hwu : validateUnit astro a.waveSpec = .ok wu) … :
-      readUnit astro (tunitCard (emitUnit wu)) = .ok wu
-
-  -- The writer upper-cases the unit string (`validate_unit(x).to_string().upper()`); astropy's
-  -- parser is case-sensitive, so `HZ`/`hz`, `THZ`/`thz`, `MJY`/`mjy`, … do not parse.  The theorem
-  -- below therefore carries `hrw`, `hrf` as hypotheses (exactly the excluded region),
-  -- `named_units_readable`/`dimensionless_readable`/`other_unit_readable` say where they hold, and
-  -- `unit_not_readable` shows the excluded region is inhabited and fails.
--/
-
 /-- flags off: the file holds exactly the caller's rows in the caller's order, reading it back
 returns the same wavelength and flux values with the units the writer validated, and the caller's
-primary-header cards are in the returned header.  `hnothin`: the epsilon thinning is not in force
-(see `roundtrip_raw_thinned` for the other case). -/
+primary-header cards are in the returned header — for every supported wavelength unit and every
+supported flux or throughput unit.  `hnothin`: the epsilon thinning is not in force (see
+`roundtrip_raw_thinned` for the other case). -/
 theorem roundtrip_raw (astro : Astro) (isStr : Bool) (a : WriteArgs K) (wu fu : String) (p : Dtype)
     (wc fc : String)
     (hwu : validateUnit astro a.waveSpec = .ok wu) (hfu : validateUnit astro a.fluxSpec = .ok fu)
@@ -142,8 +146,7 @@ theorem roundtrip_raw (astro : Astro) (isStr : Bool) (a : WriteArgs K) (wu fu : 
     (hp : resolvePrecision a.precision a.waveDtype a.fluxDtype = .ok p)
     (htrim : a.trimZero = false) (hpad : a.padZeroEnds = false)
     (hnothin : ¬ (a.waveDtype = .f8 ∧ p = .f4))
-    (hrw : readUnit astro (tunitCard (emitUnit wu)) = .ok wu)
-    (hrf : readUnit astro (tunitCard (emitUnit fu)) = .ok fu)
+    (hsw : Supported astro wu) (hsf : Supported astro fu)
     (hwc : wc.toLower = a.waveCol.toLower) (hfc : fc.toLower = a.fluxCol.toLower)
     (hcols : a.waveCol.toLower ≠ a.fluxCol.toLower)
     (hkeys : (a.priHeader.map (fun kv => kv.1.toUpper)).Nodup) :
@@ -153,9 +156,9 @@ theorem roundtrip_raw (astro : Astro) (isStr : Bool) (a : WriteArgs K) (wu fu : 
   have hrows : storedRows a.trimZero a.padZeroEnds a.waveDtype p a.epsilon (a.wave.zip a.flux)
       = .ok (a.wave.zip a.flux) := by
     simp [storedRows, htrim, hpad, hnothin, bind, Except.bind, pure, Except.pure]
-  refine ⟨writtenFile a wu fu p (a.wave.zip a.flux), (writtenFile a wu fu p (a.wave.zip a.flux)).pri,
+  refine ⟨writtenFile astro a wu fu p (a.wave.zip a.flux), (writtenFile astro a wu fu p (a.wave.zip a.flux)).pri,
     writeFitsSpec_ok astro a wu fu p _ hwu hfu hlen hp hrows, ?_, ?_⟩
-  · rw [read_written astro isStr a wu fu p _ wc fc hrw hrf hwc hfc hcols, zip_fst _ _ hlen,
+  · rw [read_written astro isStr a wu fu p _ wc fc (emitted_unit_reads_back astro wu hsw) (emitted_unit_reads_back astro fu hsf) hwc hfc hcols, zip_fst _ _ hlen,
       zip_snd _ _ hlen]
   · intro kv hkv
     exact lookup_setCards_mem a.priHeader _ hkeys kv hkv
@@ -168,8 +171,7 @@ theorem roundtrip_raw_thinned (astro : Astro) (isStr : Bool) (a : WriteArgs K) (
     (hlen : a.wave.length = a.flux.length) (hne : a.wave ≠ [])
     (hp : resolvePrecision a.precision a.waveDtype a.fluxDtype = .ok .f4) (hwd : a.waveDtype = .f8)
     (htrim : a.trimZero = false) (hpad : a.padZeroEnds = false)
-    (hrw : readUnit astro (tunitCard (emitUnit wu)) = .ok wu)
-    (hrf : readUnit astro (tunitCard (emitUnit fu)) = .ok fu)
+    (hsw : Supported astro wu) (hsf : Supported astro fu)
     (hwc : wc.toLower = a.waveCol.toLower) (hfc : fc.toLower = a.fluxCol.toLower)
     (hcols : a.waveCol.toLower ≠ a.fluxCol.toLower) :
     ∃ file hdr, writeFitsSpec astro a = .ok file ∧
@@ -187,7 +189,7 @@ theorem roundtrip_raw_thinned (astro : Astro) (isStr : Bool) (a : WriteArgs K) (
       = .ok (thinRows a.epsilon (a.wave.zip a.flux)) := by
     simp [storedRows, htrim, hpad, hwd, thin, hz, bind, Except.bind, pure, Except.pure]
   exact ⟨_, _, writeFitsSpec_ok astro a wu fu .f4 _ hwu hfu hlen hp hrows,
-    read_written astro isStr a wu fu .f4 _ wc fc hrw hrf hwc hfc hcols⟩
+    read_written astro isStr a wu fu .f4 _ wc fc (emitted_unit_reads_back astro wu hsw) (emitted_unit_reads_back astro fu hsf) hwc hfc hcols⟩
 
 /-- the caller's primary- and extension-header cards are in the written file (any flag setting);
 keywords are distinct after upper-casing -/
@@ -327,8 +329,7 @@ theorem roundtrip_default (astro : Astro) (isStr : Bool) (a : WriteArgs K) (wu f
     (hnothin : ¬ (a.waveDtype = .f8 ∧ p = .f4))
     (h2 : 2 ≤ (trimZero (a.wave.zip a.flux)).length)
     (hw : ∀ r ∈ trimZero (a.wave.zip a.flux), r.1 ≠ 0)
-    (hrw : readUnit astro (tunitCard (emitUnit wu)) = .ok wu)
-    (hrf : readUnit astro (tunitCard (emitUnit fu)) = .ok fu)
+    (hsw : Supported astro wu) (hsf : Supported astro fu)
     (hwc : wc.toLower = a.waveCol.toLower) (hfc : fc.toLower = a.fluxCol.toLower)
     (hcols : a.waveCol.toLower ≠ a.fluxCol.toLower) :
     let nz := (a.wave.zip a.flux).filter (fun r => decide (r.2 ≠ 0))
@@ -350,10 +351,10 @@ theorem roundtrip_default (astro : Astro) (isStr : Bool) (a : WriteArgs K) (wu f
   have hrows : storedRows a.trimZero a.padZeroEnds a.waveDtype p a.epsilon (a.wave.zip a.flux)
       = .ok ((w1, 0) :: nz ++ [(w2, 0)]) := by
     simp [storedRows, htrim, hpad, hnothin, hnz, hpadok, bind, Except.bind, pure, Except.pure]
-  refine ⟨writtenFile a wu fu p ((w1, 0) :: nz ++ [(w2, 0)]),
-    (writtenFile a wu fu p ((w1, 0) :: nz ++ [(w2, 0)])).pri, w1, w2,
+  refine ⟨writtenFile astro a wu fu p ((w1, 0) :: nz ++ [(w2, 0)]),
+    (writtenFile astro a wu fu p ((w1, 0) :: nz ++ [(w2, 0)])).pri, w1, w2,
     writeFitsSpec_ok astro a wu fu p _ hwu hfu hlen hp hrows, ?_, List.filter_sublist, ?_, ?_⟩
-  · rw [read_written astro isStr a wu fu p _ wc fc hrw hrf hwc hfc hcols]
+  · rw [read_written astro isStr a wu fu p _ wc fc (emitted_unit_reads_back astro wu hsw) (emitted_unit_reads_back astro fu hsf) hwc hfc hcols]
     simp
   · intro r hr; simpa using (List.mem_filter.mp hr).2
   · intro r hr hne; exact List.mem_filter.mpr ⟨hr, by simpa using hne⟩
@@ -429,35 +430,15 @@ theorem ascii_open_failure_is_file_error (astro : Astro) (ws fs : Option UnitSpe
 
 /-! ## error classes of the FITS reader -/
 
-/-
-  -- NOT PROVABLE ON CURRENT CODE (F4, first half): the property claims
+/-- a file that cannot be opened — file name or file object alike — is reported through the
+underlying file error: `fits.open` is called before the `try`, nothing intercepts its `OSError` -/
+theorem open_failure_is_file_error (astro : Astro) (isStr : Bool) (ext : ExtSel) (wc fc : String) :
+    readFitsSpec (K := K) astro isStr none ext wc fc = .error .fileError := rfl
 
-  theorem open_failure_is_file_error (astro) (isStr) (ext) (wc fc) :
-      readFitsSpec astro isStr none ext wc fc = .error .fileError
-
-  -- `fs = fits.open(filename)` raises inside the `try`, the `finally` block then evaluates
-  -- `fs.close()` with `fs` unbound, and the resulting `UnboundLocalError` replaces the `OSError`.
-  -- This happens exactly when the caller passed a file *name* (`isinstance(filename, str)`), which
-  -- is the excluded region of the partial theorem; `open_failure_str_is_unbound_local` shows that
-  -- the region is non-empty and fails.
--/
-
-/-- a file object that cannot be read as FITS: the underlying file error comes through -/
-theorem open_failure_is_file_error_partial (astro : Astro) (ext : ExtSel) (wc fc : String) :
-    readFitsSpec (K := K) astro false none ext wc fc = .error .fileError := rfl
-
-/-- a file *name* that cannot be opened: `UnboundLocalError` instead of the file error -/
-theorem open_failure_str_is_unbound_local (astro : Astro) (ext : ExtSel) (wc fc : String) :
-    readFitsSpec (K := K) astro true none ext wc fc = .error .unboundLocal := rfl
-
-/-- hence the full claim is false of the model of the current code -/
-theorem open_failure_is_file_error_false (astro : Astro) :
-    ¬ (∀ (isStr : Bool) (ext : ExtSel) (wc fc : String),
-        readFitsSpec (K := K) astro isStr none ext wc fc = .error .fileError) := by
-  intro h
-  have := h true (.idx 1) "" ""
-  rw [open_failure_str_is_unbound_local] at this
-  cases this
+/-- no outcome of `read_fits_spec` on an unopenable file is an `UnboundLocalError` -/
+theorem open_failure_never_unbound_local (astro : Astro) (isStr : Bool) (ext : ExtSel) (wc fc : String) :
+    readFitsSpec (K := K) astro isStr none ext wc fc ≠ .error .unboundLocal := by
+  rw [open_failure_is_file_error]; intro h; cases h
 
 /-- once the file is open the `finally` block is harmless: the outcome is that of the body -/
 theorem opened_file_finally_is_harmless (astro : Astro) (isStr : Bool) (f : FitsFile K) (ext : ExtSel)
@@ -508,35 +489,105 @@ theorem column_lookup_case_insensitive (astro : Astro) (isStr : Bool) (f : FitsF
     readFitsSpec astro isStr (some f) ext wc fc = readFitsSpec astro isStr (some f) ext wc' fc' := by
   rw [readFitsSpec_opened, readFitsSpec_opened, hw, hf]
 
-/-! ## units that are written but cannot be read (F4, second half) -/
+/-! ## why the writer no longer upper-cases unconditionally (documentation of the repaired defect) -/
 
-/-- a unit whose upper-cased string is not a name of the table and that astropy parses neither as it
-stands nor lower-cased is written into the file, and reading that file raises `ValueError` -/
-theorem unit_not_readable (astro : Astro) (isStr : Bool) (a : WriteArgs K) (wu fu : String) (p : Dtype)
-    (rows : List (K × K)) (wc fc : String)
-    (hne : emitUnit wu ≠ "") (h1 : lookupUnitName (emitUnit wu) = none)
-    (h2 : astro (emitUnit wu) = none) (h3 : astro (emitUnit wu).toLower = none) :
-    readFitsSpec astro isStr (some (writtenFile a wu fu p rows)) (.idx 1) wc fc = .error .valueError := by
-  apply read_written_unreadable
-  left
-  simp [tunitCard, fixTunit, hne, validateUnit_unparsable astro _ h1 h2 h3]
-
-/-- the facts about `Hz` that make it an instance: it is emitted as `HZ`, which is not in the table -/
-theorem hz_facts : emitUnit "Hz" = "HZ" ∧ "HZ".toLower = "hz" ∧ lookupUnitName "HZ" = none ∧
-    emitUnit "mJy" = "MJY" ∧ "MJY".toLower = "mjy" ∧ lookupUnitName "MJY" = none := by
+theorem hz_facts : "Hz".toUpper = "HZ" ∧ "HZ".toLower = "hz" ∧ lookupUnitName "HZ" = none ∧
+    lookupUnitName "Hz" = none := by
   decide +kernel
 
-/-- witness: with astropy's (case-sensitive) verdicts on `HZ` and `hz`, a table whose wavelengths
-are in Hz is written and cannot be read back — the unrestricted round-trip claim is false -/
-theorem hz_written_not_readable (astro : Astro) (h2 : astro "HZ" = none) (h3 : astro "hz" = none)
-    (isStr : Bool) (a : WriteArgs K) (fu : String) (p : Dtype) (rows : List (K × K)) (wc fc : String) :
-    readFitsSpec astro isStr (some (writtenFile a "Hz" fu p rows)) (.idx 1) wc fc = .error .valueError := by
+/-- with astropy's case-sensitive verdicts on `HZ` and `hz`, the string the *unrepaired* writer emitted
+for Hz (`to_string().upper()`) cannot be read back -/
+theorem unconditional_upper_fails_for_hz (astro : Astro) (h2 : astro "HZ" = none) (h3 : astro "hz" = none) :
+    readUnit astro (tunitCard "Hz".toUpper) = .error .valueError := by
   obtain ⟨e1, e2, e3, _⟩ := hz_facts
-  apply unit_not_readable
+  apply readUnit_upper_unparsable
   · rw [e1]; decide
   · rw [e1]; exact e3
   · rw [e1]; exact h2
   · rw [e1, e2]; exact h3
+
+/-- the repaired writer keeps `Hz` as it is under the same verdicts, and it reads back -/
+theorem hz_keeps_case_and_reads_back (astro : Astro) (h1 : astro "Hz" = some "Hz") (h2 : astro "HZ" = none)
+    (h3 : astro "hz" = none) :
+    emitUnit astro "Hz" = "Hz" ∧ readUnit astro (tunitCard (emitUnit astro "Hz")) = .ok "Hz" := by
+  obtain ⟨e1, e2, e3, e4⟩ := hz_facts
+  constructor
+  · apply emitted_keeps_case_otherwise
+    rw [e1, validateUnit_unparsable astro "HZ" e3 h2 (by rw [e2]; exact h3)]
+    intro h; cases h
+  · exact emitted_unit_reads_back astro "Hz" (Or.inr (Or.inr ⟨e4, h1⟩))
+
+/-! ## reloading: the loaded object returns the saved values at the saved wavelengths -/
+
+/-- `Empirical1D(points=wave, lookup_table=flux, keep_neg=k)` — what `from_file` builds from the file's
+columns — evaluated at any stored wavelength returns the stored value: ascending wavelengths, at least
+two rows, and no negative value unless `keep_neg` (negative values are clipped by the constructor,
+C03).  Interpolation at the knots is C03's `eval_knot_left/right`. -/
+theorem reload_samples_saved (wave flux : List K) (keepNeg : Bool)
+    (hlen : wave.length = flux.length) (h2 : 2 ≤ wave.length) (hasc : StrictAsc wave)
+    (hclip : keepNeg = true ∨ ∀ y ∈ flux, 0 ≤ y) :
+    ∀ p ∈ wave.zip flux, (mkTable wave flux keepNeg).1.eval p.1 = p.2 := by
+  have hnd : isDesc wave = false := by
+    match wave, h2, hasc with
+    | a :: b :: l, _, hasc =>
+      have hle : a ≤ (a :: b :: l).getLastD 0 :=
+        strictAsc_mem_le_last (a :: b :: l) hasc 0 a (by simp)
+      have hl : (a :: b :: l).getLast? = some ((a :: b :: l).getLastD 0) := by
+        rw [List.getLastD_eq_getLast?]
+        cases h : (a :: b :: l).getLast? with
+        | none => simp at h
+        | some v => rfl
+      unfold isDesc
+      rw [hl]
+      show decide ((a :: b :: l).getLastD 0 < a) = false
+      exact decide_eq_false (not_lt.mpr hle)
+  have hcl : (clipNeg keepNeg flux).1 = flux := by
+    unfold clipNeg
+    rcases hclip with hk | hk
+    · simp [hk]
+    · cases keepNeg
+      · simp only [Bool.false_eq_true, if_false]
+        conv_rhs => rw [← List.map_id flux]
+        apply List.map_congr_left
+        intro y hy
+        simp [not_lt.mpr (hk y hy)]
+      · simp
+  have hpts : (mkTable wave flux keepNeg).1.pts = wave := by simp [mkTable, hnd]
+  have hvals : (mkTable wave flux keepNeg).1.vals = flux := by simp [mkTable, hnd, hcl]
+  have hkn : (mkTable wave flux keepNeg).1.keepNeg = keepNeg := by simp [mkTable]
+  have hw : C03.WF (mkTable wave flux keepNeg).1 := ⟨by rw [hpts]; exact hasc, by rw [hpts, hvals, hlen]⟩
+  have hc : C03.Clipped (mkTable wave flux keepNeg).1 := by
+    unfold C03.Clipped
+    rw [hkn, hvals]; exact hclip
+  intro p hp
+  obtain ⟨s, hs, h⟩ := mem_zip_segs wave flux hlen h2 p hp
+  have hs' : s ∈ segs (mkTable wave flux keepNeg).1.pts (mkTable wave flux keepNeg).1.vals := by
+    rw [hpts, hvals]; exact hs
+  rcases h with h | h
+  · rw [← h]; exact C03.eval_knot_left _ hw hc s hs'
+  · rw [← h]; exact C03.eval_knot_right _ hw hc s hs'
+
+/-- saving with the flags off and loading again: the object built from what `read_fits_spec` returns
+gives the saved value at every saved wavelength -/
+theorem reload_after_roundtrip_raw (astro : Astro) (isStr : Bool) (a : WriteArgs K) (wu fu : String)
+    (p : Dtype) (wc fc : String) (keepNeg : Bool)
+    (hwu : validateUnit astro a.waveSpec = .ok wu) (hfu : validateUnit astro a.fluxSpec = .ok fu)
+    (hlen : a.wave.length = a.flux.length)
+    (hp : resolvePrecision a.precision a.waveDtype a.fluxDtype = .ok p)
+    (htrim : a.trimZero = false) (hpad : a.padZeroEnds = false)
+    (hnothin : ¬ (a.waveDtype = .f8 ∧ p = .f4))
+    (hsw : Supported astro wu) (hsf : Supported astro fu)
+    (hwc : wc.toLower = a.waveCol.toLower) (hfc : fc.toLower = a.fluxCol.toLower)
+    (hcols : a.waveCol.toLower ≠ a.fluxCol.toLower)
+    (hkeys : (a.priHeader.map (fun kv => kv.1.toUpper)).Nodup)
+    (h2 : 2 ≤ a.wave.length) (hasc : StrictAsc a.wave)
+    (hclip : keepNeg = true ∨ ∀ y ∈ a.flux, 0 ≤ y) :
+    ∃ file r, writeFitsSpec astro a = .ok file ∧
+      readFitsSpec astro isStr (some file) (.idx 1) wc fc = .ok r ∧
+      ∀ row ∈ a.wave.zip a.flux, (mkTable r.wave r.flux keepNeg).1.eval row.1 = row.2 := by
+  obtain ⟨file, hdr, hw, hr, _⟩ := roundtrip_raw astro isStr a wu fu p wc fc hwu hfu hlen hp htrim hpad
+    hnothin hsw hsf hwc hfc hcols hkeys
+  exact ⟨file, _, hw, hr, reload_samples_saved a.wave a.flux keepNeg hlen h2 hasc hclip⟩
 
 /-! ## non-vacuity: every hypothesis of the round-trip theorems is satisfiable, and the pipeline
 computes what the statements say on a concrete table -/
@@ -547,8 +598,10 @@ def astroDemo : Astro := fun s => if s = "nm" then some "nm" else none
 example : validateUnit astroDemo (.str "flam") = .ok "FLAM" := by decide +kernel
 example : validateUnit astroDemo (.str "NM") = .ok "nm" := by decide +kernel
 example : validateUnit astroDemo (.unit "nm") = .ok "nm" := rfl
-example : readUnit astroDemo (tunitCard (emitUnit "nm")) = .ok "nm" := by decide +kernel
-example : readUnit astroDemo (tunitCard (emitUnit "FLAM")) = .ok "FLAM" := by decide +kernel
+example : emitUnit astroDemo "nm" = "NM" := by decide +kernel
+example : readUnit astroDemo (tunitCard (emitUnit astroDemo "nm")) = .ok "nm" := by decide +kernel
+example : Supported astroDemo "nm" := Or.inr (Or.inr ⟨by decide +kernel, rfl⟩)
+example : readUnit astroDemo (tunitCard (emitUnit astroDemo "FLAM")) = .ok "FLAM" := by decide +kernel
 example : resolvePrecision none .f8 .f8 = .ok .f8 := rfl
 example : resolvePrecision (some "Single") .f8 .f8 = .ok .f4 := by decide +kernel
 example : resolvePrecision (some "half") .f8 .f8 = .error .synphotError := by decide +kernel
